@@ -280,13 +280,13 @@ def finite_horizon_dp(
 	if terminal_stockout_cost < 0: raise ValueError("terminal_stockout_cost must be non-negative")
 
 	# Replace scalar parameters with lists (multiple copies of scalar).
-	holding_cost = np.array(ensure_list_for_time_periods(holding_cost, num_periods, var_name="holding_cost"))
-	stockout_cost = np.array(ensure_list_for_time_periods(stockout_cost, num_periods, var_name="stockout_cost"))
-	purchase_cost = np.array(ensure_list_for_time_periods(purchase_cost, num_periods, var_name="purchase_cost"))
-	fixed_cost = np.array(ensure_list_for_time_periods(fixed_cost, num_periods, var_name="fixed_cost"))
-	discount_factor = np.array(ensure_list_for_time_periods(discount_factor, num_periods, var_name="discount_factor"))
-	demand_mean = np.array(ensure_list_for_time_periods(demand_mean, num_periods, var_name="mean"))
-	demand_sd = np.array(ensure_list_for_time_periods(demand_sd, num_periods, var_name="demand_sd"))
+	holding_cost = np.array(ensure_list_for_time_periods(holding_cost, num_periods, var_name="holding_cost"), dtype=float)
+	stockout_cost = np.array(ensure_list_for_time_periods(stockout_cost, num_periods, var_name="stockout_cost"), dtype=float)
+	purchase_cost = np.array(ensure_list_for_time_periods(purchase_cost, num_periods, var_name="purchase_cost"), dtype=float)
+	fixed_cost = np.array(ensure_list_for_time_periods(fixed_cost, num_periods, var_name="fixed_cost"), dtype=float)
+	discount_factor = np.array(ensure_list_for_time_periods(discount_factor, num_periods, var_name="discount_factor"), dtype=float)
+	demand_mean = np.array(ensure_list_for_time_periods(demand_mean, num_periods, var_name="mean"), dtype=float)
+	demand_sd = np.array(ensure_list_for_time_periods(demand_sd, num_periods, var_name="demand_sd"), dtype=float)
 	demand_source = np.array(ensure_list_for_time_periods(demand_source, num_periods, var_name="demand_source"))
 
 	# Build demand_source, if not provided; and get mean and SD, if demand_source is provided.
@@ -697,13 +697,13 @@ def myopic_bounds(
 	assert terminal_stockout_cost >= 0, "terminal_stockout_cost must be non-negative"
 
 	# Replace scalar parameters with lists (multiple copies of scalar).
-	holding_cost = np.array(ensure_list_for_time_periods(holding_cost, num_periods, var_name="holding_cost"))
-	stockout_cost = np.array(ensure_list_for_time_periods(stockout_cost, num_periods, var_name="stockout_cost"))
-	purchase_cost = np.array(ensure_list_for_time_periods(purchase_cost, num_periods, var_name="purchase_cost"))
-	fixed_cost = np.array(ensure_list_for_time_periods(fixed_cost, num_periods, var_name="fixed_cost"))
-	discount_factor = np.array(ensure_list_for_time_periods(discount_factor, num_periods, var_name="discount_factor"))
-	demand_mean = np.array(ensure_list_for_time_periods(demand_mean, num_periods, var_name="mean"))
-	demand_sd = np.array(ensure_list_for_time_periods(demand_sd, num_periods, var_name="demand_sd"))
+	holding_cost = np.array(ensure_list_for_time_periods(holding_cost, num_periods, var_name="holding_cost"), dtype=float)
+	stockout_cost = np.array(ensure_list_for_time_periods(stockout_cost, num_periods, var_name="stockout_cost"), dtype=float)
+	purchase_cost = np.array(ensure_list_for_time_periods(purchase_cost, num_periods, var_name="purchase_cost"), dtype=float)
+	fixed_cost = np.array(ensure_list_for_time_periods(fixed_cost, num_periods, var_name="fixed_cost"), dtype=float)
+	discount_factor = np.array(ensure_list_for_time_periods(discount_factor, num_periods, var_name="discount_factor"), dtype=float)
+	demand_mean = np.array(ensure_list_for_time_periods(demand_mean, num_periods, var_name="mean"), dtype=float)
+	demand_sd = np.array(ensure_list_for_time_periods(demand_sd, num_periods, var_name="demand_sd"), dtype=float)
 
 	# Validate other parameters.
 	assert np.all(np.array(holding_cost[1:]) >= 0), "holding_cost must be non-negative."
